@@ -174,8 +174,10 @@ var c02Values = map[string]any{
 	// line breaks as Windows and old Macs write them: a parser turns a raw CR into LF
 	"f32": float32(0.1), "f32b": float32(19.99), "big": 1234567.0, "small": 0.00002, "u8": uint8(200), "i64": int64(-5),
 	"crlf": "l1\r\nl2", "cr": "m1\rm2", "tabnl": "t\tu\nv",
+	// a value that looks like template source stays a value
+	"must": "a {{ one }} b", "musttag": "<code>Hello {{ v }}!</code>",
 }
-var c02ValueNames = []string{"word", "amp", "lt", "tag", "dq", "sq", "ent", "lead", "trail", "nbsp", "nilv", "int", "neg", "true", "float", "entlt", "semi", "crlf", "cr", "tabnl", "f32", "f32b", "big", "small", "u8", "i64"}
+var c02ValueNames = []string{"word", "amp", "lt", "tag", "dq", "sq", "ent", "lead", "trail", "nbsp", "nilv", "int", "neg", "true", "float", "entlt", "semi", "crlf", "cr", "tabnl", "f32", "f32b", "big", "small", "u8", "i64", "must", "musttag"}
 
 func (c *c02Case) Run(ctx *core.Ctx) {
 	switch c.Part {
